@@ -150,6 +150,14 @@ func (p *Program) verifyFunc(name string, c *FuncContract) (res *FuncResult) {
 		// the package initialiser runs once: its guard is still false
 		st.ghost["global:g_"+sanitize(fn.Pkg.Pkg.Name()+"_init$guard")] = Term{"false", SBool}
 	}
+	for _, r := range c.Owns {
+		v := env.tr(r.Expr)
+		if len(env.errs) > 0 {
+			vc.fatalf("%s owns %q: %s", name, r.Text, strings.Join(env.errs, "; "))
+			break
+		}
+		vc.owned = append(vc.owned, v.T.S)
+	}
 	vc.entry = st.clone()
 	fr.oldState = vc.entry
 	res.CoverPC = append([]string{}, st.pc...)
